@@ -1,0 +1,18 @@
+//go:build verif
+
+package sweeper
+
+import "context"
+
+// VerifSliceYield, when set, is called between two write-lock slices of a sweep
+// (verification builds only); it may block.
+var VerifSliceYield func(dbiName string)
+
+func verifSliceYield(dbiName string) {
+	if f := VerifSliceYield; f != nil {
+		f(dbiName)
+	}
+}
+
+// VerifSweepOnce runs exactly one sweeper pass.
+func (s *Sweeper) VerifSweepOnce(ctx context.Context) error { return s.sweep(ctx) }
